@@ -365,6 +365,16 @@ theorem C16_safe_bstore_interLen (a b : BStore) (ha : a.Inv) (hb : b.Inv) (v : L
 example : BStore.full.Safe_interLenBitmap BStore.full ∧ BStore.full.Safe_interLenArray [1, 2] :=
   C16_safe_bstore_interLen _ _ BStore.inv_full BStore.inv_full _ ⟨by decide, by decide⟩
 
+/-- `BitmapIter::next` / `next_back` / `advance_to` / `advance_back_to`: `self.key + 1`, the yielded
+    `64 * self.key + index` / `64 * self.key_back + index` fit `u16`; `1 << bit`, `u64::MAX >> (64 - bit - 1)`
+    (bitmap_store.rs:481-618; `value - 1`, `key_back -= 1`, `63 - leading_zeros` sit behind explicit tests that the
+    model's `BIter.next` / `nextBack` repeat). -/
+theorem C16_safe_biter (it : BIter) (hi : it.Inv) (index : Nat) :
+    it.Safe_next ∧ it.Safe_nextBack ∧ BIter.Safe_advance index :=
+  ⟨BIter.safe_next it hi, BIter.safe_nextBack it hi, BIter.safe_advance index⟩
+example : (BIter.new BStore.full.bits).Safe_next ∧ (BIter.new BStore.full.bits).Safe_nextBack ∧ BIter.Safe_advance 65535 :=
+  C16_safe_biter _ (BIter.new_inv _ BStore.inv_full.words) _
+
 /-! ### (b) `ArrayStore` (array_store/mod.rs) -/
 
 /-- `insert` / `remove`: `Vec::insert(loc, …)` gets `loc ≤ len`, `Vec::remove(loc)` gets `loc < len`
@@ -518,6 +528,12 @@ example : Bitmap.Safe_statistics exB := C16_safe_statistics exB exB_wf
 theorem C16_safe_treemap_split_join (v hi lo : Nat) (hv : v < 2^64) (hhi : hi < 4294967296) (hlo : lo < 4294967296) :
     Treemap.Safe_split v ∧ Treemap.Safe_join hi lo := ⟨Treemap.safe_split v hv, Treemap.safe_join hi lo hhi hlo⟩
 example : Treemap.Safe_split 18446744073709551615 ∧ Treemap.Safe_join 4294967295 4294967295 := by decide
+
+/-- treemap `insert_range` over an existing inner partition: `full_bitmap.len() - entry.insert(full_bitmap).len()` does
+    not underflow, a well-formed partition holds at most `2^32 = full().len()` values (treemap/inherent.rs:100). -/
+theorem C16_safe_treemap_insertRange_full (old : Bitmap) (h : old.WF) : Treemap.Safe_insertRangeFull old :=
+  Treemap.safe_insertRangeFull old h
+example : Treemap.Safe_insertRangeFull exB := C16_safe_treemap_insertRange_full exB exB_wf
 
 /-- `RoaringTreemap::len` (`.map(RoaringBitmap::len).sum()`, treemap/inherent.rs:327-329) does not overflow `u64`
     exactly when the treemap holds fewer than `2^64` values … -/
